@@ -492,6 +492,49 @@ impl Queries {
     }
 }
 
+// ---------------------------------------------------------------------------------------------------------------------
+// FriProof::parse_remainder / num_remainder_elements (fri/src/proof.rs, C03 / C05): the remainder polynomial the verifier
+// checks against its commitment is a canonical decoding of the remainder bytes - Ok exactly when the implied number of
+// elements (byte length / ELEMENT_BYTES) is a power of two, the bytes decode to that many elements and nothing follows.
+// Literal rewrite (listed): `.map_err(|err| InvalidValue(format!(..)))` becomes the shim `as_invalid(..)` (Ok unchanged, any Err
+// becomes InvalidValue); `x.is_power_of_two()` / `E::ELEMENT_BYTES` as above.
+pub struct FriProof { pub remainder: Vec<u8> }
+#[verifier::external_body]
+pub fn as_invalid(r: Result<Vec<T>, DeserializationError>) -> (o: Result<Vec<T>, DeserializationError>)
+    ensures o is Ok <==> r is Ok, o is Ok ==> o->Ok_0 == r->Ok_0, o is Err ==> o->Err_0 is InvalidValue
+{ unimplemented!() }
+impl FriProof {
+    //@@ source fri/src/proof.rs
+    //@@ extract anchor="pub fn num_remainder_elements<E: FieldElement>(&self) -> usize"
+    //@@ rewrite "E::ELEMENT_BYTES" => "E::element_bytes()"
+    pub fn num_remainder_elements(&self) -> (r: usize)
+        ensures r == self.remainder@.len() / (elem_bytes() as nat)
+    {
+        /*@@body*/
+    }
+
+    //@@ extract anchor="pub fn parse_remainder<E: FieldElement>(&self) -> Result<Vec<E>, DeserializationError>"
+    //@@ rewrite "self.num_remainder_elements::<E>()" => "self.num_remainder_elements()"
+    //@@ rewrite "!num_elements.is_power_of_two()" => "!is_power_of_two(num_elements)"
+    //@@ rewrite-re "(?s)DeserializationError::InvalidValue\(format!\(.*?\)\)\)" => "DeserializationError::InvalidValue(err_text()))"
+    //@@ rewrite-re "(?s)reader\.read_many\(num_elements\)\.map_err\(\|err\| \{.*?\}\)\?" => "as_invalid(reader.read_many(num_elements))?"
+    pub fn parse_remainder(&self) -> (r: Result<Vec<T>, DeserializationError>)
+        ensures
+            r is Ok <==> {
+                let k = (self.remainder@.len() / (elem_bytes() as nat)) as usize;
+                &&& is_pow2_spec(k)
+                &&& dec_many(self.remainder@, k as nat) is Some
+                &&& dec_many(self.remainder@, k as nat)->Some_0.1.len() == 0
+            },
+            r is Ok ==> r->Ok_0@ == dec_many(self.remainder@, (self.remainder@.len() / (elem_bytes() as nat)) as nat)->Some_0.0,
+            // a decoded remainder that is refused because bytes follow it is reported as such
+            r is Err && is_pow2_spec((self.remainder@.len() / (elem_bytes() as nat)) as usize)
+                && dec_many(self.remainder@, self.remainder@.len() / (elem_bytes() as nat)) is Some ==> r->Err_0 is UnconsumedBytes,
+    {
+        /*@@body*/
+    }
+}
+
 proof fn oodv_canary_must_fail(b: Seq<u8>)
     requires trace_ok(b, 1)
     ensures b.len() == 1
